@@ -123,6 +123,7 @@ class SObject(object):
 
 
 FACT = z3.Function('fact@spec', z3.IntSort(), z3.IntSort())      # = the contract-language spec function `fact`
+POW10 = z3.Function('pow10@spec', z3.IntSort(), z3.RealSort())
 _fresh = itertools.count()
 
 
@@ -563,6 +564,10 @@ class Gen(object):
                     for _ in range(b.as_long()):
                         r = r * a
                     return r
+                if z3.is_int_value(a) and a.as_long() == 10 and is_int(b):
+                    # 10 ** e for an integer e of either sign: the positive real pow10(e)  (A4; only positivity is used)
+                    path.hyps.append(atom(POW10(b) > 0))
+                    return POW10(b)
                 raise Unsupported('power with a non-constant exponent')
             raise Unsupported('operator %s' % type(n.op).__name__)
         if isinstance(n, ast.UnaryOp):
@@ -912,6 +917,21 @@ class Gen(object):
                 if isinstance(l, SList) and not l.nested():
                     return self.sumfn(l)(l.arr, z3.IntVal(0), l.ln)
                 raise Unsupported('sum() of this argument')
+            if f == 'all' and len(n.args) == 1:
+                l = ev(n.args[0])
+                if not (isinstance(l, SList) and l.et == 'bool'):
+                    raise Unsupported('all() of a non-bool list')
+                b = fresh('all', B)
+                kq = z3.Int('k?')
+                rng = z3.And(0 <= kq, kq < l.ln)
+                path.hyps.append(('implies', atom(b), ('forall', [kq], ('implies', atom(rng), atom(z3.Select(l.arr, kq))))))
+                path.hyps.append(('implies', atom(z3.Not(b)), ('exists', [kq], atom(z3.And(rng, z3.Not(z3.Select(l.arr, kq)))))))
+                return b
+            if f == 'hasattr' and len(n.args) == 2 and isinstance(n.args[1], ast.Constant):
+                o = ev(n.args[0])
+                if isinstance(o, SObject) and n.args[1].value in o.attrs:
+                    return z3.BoolVal(True)          # the contract declares the object with this attribute
+                raise Unsupported('hasattr on an undeclared attribute')
             if f == 'deepcopy':
                 return ev(n.args[0])          # A4: deepcopy of plain lists is the identity on values
             if f == 'tuple' or f == 'list':
@@ -1000,6 +1020,12 @@ class Gen(object):
                 l = SList(z3.K(I, v.arr), l.ln, ('list', v.et), z3.K(I, z3.IntVal(0)),
                           z3.K(I, v.ilen) if v.nested() else None)
             return l.with_row(l.ln, v).resized(l.ln + 1)
+        if is_bool(v):
+            if l.et == 'bool':
+                return SList(z3.Store(l.arr, l.ln, v), l.ln + 1, 'bool')
+            if z3.is_int_value(l.ln) and l.ln.as_long() == 0:
+                return SList(z3.Store(z3.K(I, z3.BoolVal(False)), l.ln, v), l.ln + 1, 'bool')
+            raise Unsupported('append bool to a %s list' % (l.et,))
         if l.et == 'real' and is_int(v):
             if z3.is_int_value(l.ln) and l.ln.as_long() == 0:
                 return SList(z3.Store(z3.K(I, z3.IntVal(0)), l.ln, v), l.ln + 1, 'int')
@@ -1286,7 +1312,8 @@ class Gen(object):
                     and st.targets[0].id in self.c.get('locals', {}) and z3.is_int_value(val.ln) and val.ln.as_long() == 0:
                 # element type of an empty list literal, from the contract's `locals` declaration
                 et = self.c['locals'][st.targets[0].id][1]
-                val = SList(z3.K(I, z3.RealVal(0) if et == 'real' else z3.IntVal(0)) if not isinstance(et, tuple)
+                val = SList(z3.K(I, z3.RealVal(0) if et == 'real' else (z3.BoolVal(False) if et == 'bool' else z3.IntVal(0)))
+                            if not isinstance(et, tuple)
                             else fresh('empty', z3.ArraySort(I, sort_of(et))), z3.IntVal(0), et,
                             z3.K(I, z3.IntVal(0)) if isinstance(et, tuple) else None)
             if len(st.targets) == 1 and isinstance(st.targets[0], ast.Name) and st.targets[0].id in self.c.get('locals', {}) \
